@@ -200,6 +200,9 @@ func encodeResults(w io.Writer, runLogs []string, results RunResults,
 		if splitOutputs {
 			stateMap := make(map[string]interface{})
 			for i, state := range description.States {
+				if i >= stateArray.Len(0) {
+					break // fewer state values than declared names (e.g. Lag with no lag)
+				}
 				singleState := stateArray.Get([]int{i})
 				stateMap[state] = owjs.JsonSafeValue(singleState)
 			}
